@@ -434,6 +434,8 @@ def run(
                 url_datapoints, data_structures, mapping_dict
             )
             input_datasets.update(url_ds)
+            # Substitute the fetched frames in a copy: the dictionary belongs to the caller
+            datapoints = dict(datapoints)
             for url_name, url_df in url_dfs.items():
                 datapoints[url_name] = url_df
             for url_name in url_datapoints:
